@@ -834,7 +834,7 @@ func (k *c19) headers() {
 		if h, ok := readBERHeader(hdr); ok && h.hdrLen == hl && h.length >= 0 && h.length <= 70000 {
 			want = int(h.length) + 3
 		}
-		for i := hl; i < hl+8 && i < len(big); i++ {
+		for i := hl; i < 40; i++ {
 			big[i] = 0
 		}
 		in := big[:hl+want]
@@ -976,5 +976,4 @@ func (k *c19) replay() {
 			}
 		}
 	}
-	k.c.NontrivialEnumerated(2) // a replay is one case; keep the supervisor's floor out of the way
 }
